@@ -1973,25 +1973,62 @@ inductive WhilePasses (K : State → State → Prop) (bodyPc top : Nat) :
 /-- **the body's simulation contract**: whenever the source-level body, started in a state `σ`
 that agrees with the VM state `t` at the body's first instruction, ends normally in `σ'`, the
 body's code runs as `BodyRun` says to a state that agrees with `σ'` -/
-def BodySim (img : Image) (b : List Instr) (body : Block) : Prop :=
-  ∀ (f : Nat) (σ σ' : S) (t : State), EnvR σ t → t.status = .running →
+def BodySim (Rel : S → State → Prop) (img : Image) (b : List Instr) (body : Block) : Prop :=
+  ∀ (f : Nat) (σ σ' : S) (t : State), Rel σ t → t.status = .running →
     (∃ pc : Nat, t.pc = (pc : Int) ∧ CodeAt img pc b) →
     (∃ vars h rest, t.stack = .loop vars h :: rest) →
-    execBlock f body σ = (.normal, σ') → ∃ u, BodyRun img b t u ∧ EnvR σ' u
+    execBlock f body σ = (.normal, σ') → ∃ u, BodyRun img b t u ∧ Rel σ' u
+
+/-- what a loop's own control code may do to a state: move `pc`, overwrite `result`, push, pop
+or keep the innermost loop frame — and nothing else -/
+structure CtlStep (s s' : State) : Prop where
+  regs : ∀ r, r ≠ .result → s'.regs r = s.regs r
+  stack : s'.stack = s.stack ∨ (∃ vars h, s'.stack = .loop vars h :: s.stack) ∨
+    (∃ vars h, s.stack = .loop vars h :: s'.stack)
+  defaultColor : s'.defaultColor = s.defaultColor
+  matrix : s'.matrix = s.matrix
+  globals : s'.globals = s.globals
+  constants : s'.constants = s.constants
+  eval : s'.eval = s.eval
+  unnamed : s'.unnamed = s.unnamed
+  lights : s'.lights = s.lights
+  trace : s'.trace = s.trace
+  status : s'.status = s.status
+  draws : s'.draws = s.draws
+
+/-- a relation between source-level and VM states that the while theorem can carry through a
+loop: it implies agreement on names and registers, and loop control does not disturb it -/
+structure RelOk (Rel : S → State → Prop) : Prop where
+  env : ∀ σ s, Rel σ s → EnvR σ s
+  ctl : ∀ σ s s', Rel σ s → CtlStep s s' → Rel σ s'
+
+theorem getVariable_ctl {s s' : State} (h : CtlStep s s') (n : String) :
+    s'.getVariable n = s.getVariable n := by
+  simp only [State.getVariable, h.constants, h.globals]
+  rcases h.stack with e | ⟨vars, hh, e⟩ | ⟨vars, hh, e⟩
+  · rw [e]
+  · rw [e, activation_cons_loop]
+  · rw [e, activation_cons_loop]
+
+/-- agreement on names and registers is such a relation -/
+theorem EnvR.relOk : RelOk EnvR where
+  env := fun _ _ h => h
+  ctl := fun σ s s' h hc => ⟨fun n => by rw [getVariable_ctl hc n]; exact h.1 n,
+    fun r hr => by rw [hc.regs r hr]; exact h.2 r hr⟩
 
 theorem while_from_top (img : Image) (top : Nat) (e : Expr) (b : List Instr) (body : Block)
     (he : PureCond e)
     (hc : CodeAt img top (loopTail (genExpr e ++ [Instr.pop (.reg .result)]) (b ++ [])))
-    (hsim : BodySim img b body) :
+    (Rel : S → State → Prop) (hrel : RelOk Rel) (hsim : BodySim Rel img b body) :
     ∀ (f : Nat) (σ σ' : S) (m : Nat) (s : State) (vars : List (LoopVar × Val)) (h : Nat)
       (rest : List Frame),
-      EnvR σ s → s.status = .running → s.pc = (top : Int) → s.stack = .loop vars h :: rest →
+      Rel σ s → s.status = .running → s.pc = (top : Int) → s.stack = .loop vars h :: rest →
       s.eval.length = h → whilePasses f (.expr e) body σ = some (m, σ') →
       ∃ ts s_top xf k,
         WhilePasses (BodyRun img b) (top + (genExpr e).length + 2) top s ts s_top ∧ ts.length = m ∧
         xf.truthy = false ∧
         run img k s = exitW (top + (genExpr e).length + b.length + 4) xf s_top ∧
-        EnvR σ' (exitW (top + (genExpr e).length + b.length + 4) xf s_top) ∧
+        Rel σ' (exitW (top + (genExpr e).length + b.length + 4) xf s_top) ∧
         s_top.eval = s.eval ∧ ∃ vars' rest', s_top.stack = .loop vars' h :: rest' := by
   obtain ⟨hT, hJ, hB, _, hBk, hE⟩ := loopTail_parts hc
   simp only [List.length_append, List.length_cons, List.length_nil, Nat.add_zero, Nat.zero_add] at hJ hB hBk hE
@@ -1999,7 +2036,8 @@ theorem while_from_top (img : Image) (top : Nat) (e : Expr) (b : List Instr) (bo
   induction f with
   | zero => intro σ σ' m s vars h rest _ _ _ _ _ hw; simp [whilePasses] at hw
   | succ f ih =>
-    intro σ σ' m s vars h rest henv hs hpc hst hev hw
+    intro σ σ' m s vars h rest hrl hs hpc hst hev hw
+    have henv := hrel.env σ s hrl
     simp only [whilePasses] at hw
     cases f with
     | zero => simp [evalRv] at hw
@@ -2039,7 +2077,8 @@ theorem while_from_top (img : Image) (top : Nat) (e : Expr) (b : List Instr) (bo
                 apply State.ext' <;> first | rfl | (simp [sT, enterW, hx]; omega) | (simp [sT, enterW, hx])
               obtain ⟨u, ⟨⟨k1, hk1⟩, hur, hupc, huev, hufr⟩, henv2⟩ :=
                 hsim (f + 1) σ1 σ2 (enterW (top + (genExpr e).length + 2) x s)
-                  ⟨fun n => henv.1 n, fun r hr => by simp [enterW, hr, henv.2 r hr]⟩
+                  (hrel.ctl σ1 s _ hrl ⟨fun r hr => by simp [enterW, hr], .inl rfl, rfl, rfl, rfl, rfl, rfl,
+                    rfl, rfl, rfl, rfl, rfl⟩)
                   (by exact hs) ⟨top + (genExpr e).length + 2, rfl, by
                     have : top + ((genExpr e).length + 1) + 1 = top + (genExpr e).length + 2 := by omega
                     rw [← this]; exact hB⟩
@@ -2051,7 +2090,8 @@ theorem while_from_top (img : Image) (top : Nat) (e : Expr) (b : List Instr) (bo
                 apply State.ext' <;> first | rfl | (simp; omega)
               obtain ⟨ts, s_top, xf, k2, hch, hl, hxf, hrun2, henv3, hev3, hfr3⟩ :=
                 ih σ2 σ'' m' ({ u with pc := (top : Int) } : State) vars h rest'
-                  ⟨fun n => henv2.1 n, fun r hr => henv2.2 r hr⟩ (by exact hur) rfl (by exact hust)
+                  (hrel.ctl σ2 u _ henv2 ⟨fun _ _ => rfl, .inl rfl, rfl, rfl, rfl, rfl, rfl, rfl, rfl, rfl, rfl,
+                    rfl⟩) (by exact hur) rfl (by exact hust)
                   (by show u.eval.length = h; rw [huev]; exact hev) hrec
               refine ⟨_ :: ts, s_top, xf, (genExpr e).length + 1 + (1 + (k1 + (1 + k2))),
                 .pass x hx ⟨⟨k1, hk1⟩, hur, hupc, huev, hufr⟩ hch, by simp [hl], hxf, ?_, henv3, ?_, hfr3⟩
@@ -2072,8 +2112,8 @@ theorem while_from_top (img : Image) (top : Nat) (e : Expr) (b : List Instr) (bo
               (simp [sT, exitW, hst, trimEval, ← hev])
           refine ⟨[], s, x, (genExpr e).length + 1 + (1 + 1), .done s, rfl, hx', ?_, ?_, rfl, vars, rest, hst⟩
           · exact run_trans htest (run_trans hfail hend)
-          · exact ⟨fun n => by rw [henv.1 n]; simp [State.getVariable, exitW, hst, activation],
-              fun r hr => by simp [exitW, hr, henv.2 r hr]⟩
+          · exact hrel.ctl σ1 s _ hrl ⟨fun r hr => by simp [exitW, hr],
+              .inr (.inr ⟨vars, h, by simp [exitW, hst]⟩), rfl, rfl, rfl, rfl, rfl, rfl, rfl, rfl, rfl, rfl⟩
 
 
 theorem assembled_while (test b : List Instr) :
@@ -2081,7 +2121,8 @@ theorem assembled_while (test b : List Instr) :
   rw [assembleLoop_ins, unG_ins, loopCode_eq]; simp
 
 /-- **while_loop.**  `repeat while {e}` for a call-free condition `e` (not reading the scratch
-register `result`) and any body related to its source `body` by `BodySim`: if the source-level
+register `result`) and any body related to its source `body` by `BodySim` for a state
+relation `Rel` that loop control preserves (`RelOk`; `EnvR` is one, `EnvR.relOk`): if the source-level
 loop `Sem.execWhile` ends normally after `m` passes in `σ'` (fuel `f`), then the VM, started at
 `LOOP` in a state that agrees with `σ`, evaluates the condition before every pass — each pass
 starts in a state `enterW … x …` with `x` the condition's value then, true — runs the body
@@ -2090,15 +2131,16 @@ past `END_LOOP` in a state that agrees with `σ'`, loop frame popped, evaluation
 theorem C04_while_loop (img : Image) (P0 : Nat) (e : Expr) (b : List Instr) (body : Block)
     (he : PureCond e)
     (hc : CodeAt img P0 (unG (assembleLoop [] (genRv (.expr e) (.to result)) [] (ins b) [])))
-    (hsim : BodySim img b body) (f : Nat) (σ σ' : S) (m : Nat) (s : State)
-    (henv : EnvR σ s) (hs : s.status = .running) (hpc : s.pc = (P0 : Int))
+    (Rel : S → State → Prop) (hrel : RelOk Rel)
+    (hsim : BodySim Rel img b body) (f : Nat) (σ σ' : S) (m : Nat) (s : State)
+    (henv : Rel σ s) (hs : s.status = .running) (hpc : s.pc = (P0 : Int))
     (hw : whilePasses f (.expr e) body σ = some (m, σ')) :
     execWhile f (some (.expr e)) body σ = (.normal, σ') ∧
     ∃ ts s_top xf k,
       WhilePasses (BodyRun img b) (P0 + 1 + (genExpr e).length + 2) (P0 + 1) (afterLoop s) ts s_top ∧
       ts.length = m ∧ xf.truthy = false ∧
       run img k s = exitW (P0 + 1 + (genExpr e).length + b.length + 4) xf s_top ∧
-      EnvR σ' (exitW (P0 + 1 + (genExpr e).length + b.length + 4) xf s_top) ∧
+      Rel σ' (exitW (P0 + 1 + (genExpr e).length + b.length + 4) xf s_top) ∧
       s_top.eval = s.eval ∧ ∃ vars', s_top.stack = .loop vars' s.eval.length :: (exitW 0 xf s_top).stack := by
   refine ⟨whilePasses_execWhile f _ body σ σ' m hw, ?_⟩
   rw [assembled_while] at hc
@@ -2107,8 +2149,9 @@ theorem C04_while_loop (img : Image) (P0 : Nat) (e : Expr) (b : List Instr) (bod
     have := hc.right
     simpa [genRv, result] using this
   obtain ⟨ts, s_top, xf, k, hch, hl, hxf, hrun, henv', hev, vars', rest', hst'⟩ :=
-    while_from_top img (P0 + 1) e b body he hT hsim f σ σ' m (afterLoop s) [] s.eval.length s.stack
-      ⟨fun n => henv.1 n, fun r hr => henv.2 r hr⟩ (by exact hs) (by simp [afterLoop, hpc]) rfl rfl hw
+    while_from_top img (P0 + 1) e b body he hT Rel hrel hsim f σ σ' m (afterLoop s) [] s.eval.length s.stack
+      (hrel.ctl σ s _ henv ⟨fun _ _ => rfl, .inr (.inl ⟨[], s.eval.length, rfl⟩), rfl, rfl, rfl, rfl, rfl,
+        rfl, rfl, rfl, rfl, rfl⟩) (by exact hs) (by simp [afterLoop, hpc]) rfl rfl hw
   refine ⟨ts, s_top, xf, 1 + k, hch, hl, hxf, run_trans (run_loop_instr img s P0 hs hpc hL) hrun, henv', hev,
     vars', ?_⟩
   simp [exitW, hst']
@@ -2374,5 +2417,363 @@ theorem C04_iter_names_order (items : List IterItem) (hl : ∀ i ∈ items, LitI
 
 end IterNames
 
+
+/-! ## non-vacuity: concrete programs -/
+
+section Examples
+
+/-- integers printed, oldest first -/
+def outInts (tr : List Event) : List Int :=
+  tr.reverse.filterMap fun e => match e with | .out (.int i) => some i | _ => none
+
+def exBody : List Instr := [.moveq (.int 1) (.reg .result), .out .register (.reg .result), .out .print (.lit .none)]
+def exRepeat3 : Block := Block.ofList [.repeat_ (.count (.lit (.int 3))) (Block.ofList [.print (.lit (.int 1))])]
+
+theorem exRepeat3_code : genBlock exRepeat3 =
+    ins (loopCode [.moveq (.int 3) counter] counterTest (exBody ++ loopPost none)) := by
+  simp only [exRepeat3, Block.ofList, genBlock, genStmt, genLoop, genRv, List.append_nil]
+  rw [assembleLoop_ins]; simp [exBody, result]
+
+def exImg : Image := Loader.load (loopCode [.moveq (.int 3) counter] counterTest (exBody ++ loopPost none))
+
+theorem mapM_ins (xs : List Instr) :
+    (ins xs).mapM (fun g => match g with | .i x => some x | .brk => none) = some xs := by
+  induction xs with
+  | nil => rfl
+  | cons x xs ih => simp only [ins, List.map_cons, List.mapM_cons] at ih ⊢; rw [ih]; rfl
+
+theorem genProgram_of_ins (b : Block) (xs : List Instr) (h : genBlock b = ins xs) :
+    genProgram b = some xs := by
+  unfold genProgram; rw [h]; exact mapM_ins xs
+
+example : genProgram exRepeat3 =
+    some (loopCode [.moveq (.int 3) counter] counterTest (exBody ++ loopPost none)) :=
+  genProgram_of_ins _ _ exRepeat3_code
+
+example : outInts (Vm.run exImg 200 (Vm.init [])).trace = [1,1,1] := by decide +kernel
+
+/-- the body `print 1` satisfies the body contract from every state, in any image -/
+theorem exBody_ok (img : Image) : BodyOk img exBody := by
+  intro t ht ⟨pc, hpc, hc⟩ _
+  have h1 : step img t = { t.setReg .result (.int 1) with pc := (pc : Int) + 1 } := by
+    rw [step_moveq img t pc (.int 1) (.reg .result) ht hpc hc.head (by simp) (by simpa [State.put, State.setReg] using ht)]
+    simp [State.put, State.setReg, hpc]
+  have h2 : step img { t.setReg .result (.int 1) with pc := (pc : Int) + 1 } =
+      { t.setReg .result (.int 1) with pc := (pc : Int) + 2, unnamed := t.unnamed ++ [.int 1] } := by
+    rw [step_plain img _ (pc + 1) _ (by simpa [State.setReg] using ht) (by simp) hc.tail.head (by simp) rfl
+      (by simpa [execInstr, State.setReg] using ht)]
+    simp [execInstr, State.setReg, State.read]
+    omega
+  have h3 : step img { t.setReg .result (.int 1) with pc := (pc : Int) + 2, unnamed := t.unnamed ++ [.int 1] } =
+      { t.setReg .result (.int 1) with pc := (pc : Int) + 3, trace := .out (.int 1) :: t.trace } := by
+    rw [step_plain img _ (pc + 2) _ (by simpa [State.setReg] using ht) (by simp) hc.tail.tail.head (by simp) rfl
+      (by simpa [execInstr, State.setReg, State.emit] using ht)]
+    simp [execInstr, State.setReg, State.emit]
+    omega
+  refine ⟨{ t.setReg .result (.int 1) with pc := (pc : Int) + 3, trace := .out (.int 1) :: t.trace },
+    ⟨3, ?_⟩, ?_, ?_, ?_, ?_⟩
+  · rw [run_succ _ _ _ ht, h1, run_succ _ _ _ (by simpa [State.setReg] using ht), h2,
+      run_one _ _ (by simpa [State.setReg] using ht), h3]
+  · simpa [State.setReg] using ht
+  · simp [hpc, exBody]
+  · rfl
+  · intro vars h rest hst; exact ⟨rest, hst⟩
+
+/-- the loop `repeat 3 begin print 1 end` placed at address 0 of an image -/
+def exImg2 : Image :=
+  ⟨(([] : List Instr) ++ unG (assembleLoop (genRv (.lit (.int 3)) (.to counter)) counterTest []
+      (ins exBody) (loopPost none)) ++ [Instr.stop]).toArray, []⟩
+
+/-- `C04_count_loop` applied: all hypotheses hold for this image and the initial state, and the
+conclusion gives exactly three passes -/
+example : ∃ (ts : List State) (s' : State), ts.length = 3 ∧ (∃ k, run exImg2 k (Vm.init []) = exitLoop 16 s') ∧
+    (∃ vars' rest', s'.stack = .loop vars' 0 :: rest') := by
+  have hc : CodeAt exImg2 0 (unG (assembleLoop (genRv (.lit (.int 3)) (.to counter)) counterTest []
+      (ins exBody) (loopPost none))) := CodeAt.intro [] _ [Instr.stop] []
+  have hpreC : CodeAt exImg2 1 (genRv (.lit (.int 3)) (.to counter)) := by
+    have := hc
+    rw [assembled_counted, loopCode_eq] at this
+    exact this.left.right
+  have hpre := preRun_literal exImg2 (afterLoop (Vm.init [])) 1 0 [] (.int 3) 3 false rfl rfl hpreC rfl
+    (by simpa using Num.int 3)
+  obtain ⟨ts, s', _, hl, hk, _, hfr⟩ := C04_count_loop exImg2 0 _ exBody hc (Vm.init []) _ 3 rfl rfl hpre
+    (exBody_ok exImg2)
+  refine ⟨ts, s', ?_, ?_, hfr⟩
+  · rw [hl]; exact passes_natCast 3
+  · rw [assembled_counted] at hk
+    simpa [loopCode, counterTest, testOp, loopPost, exBody, genRv] using hk
+
+def outNums (tr : List Event) : List Rat :=
+  tr.reverse.filterMap fun e => match e with | .out (.int i) => some (i : Rat) | .out (.num q) => some q | _ => none
+def outStrs (tr : List Event) : List String :=
+  tr.reverse.filterMap fun e => match e with | .out (.str i) => some i | _ => none
+
+def printVar (v : String) : List Instr :=
+  [.move (.var v) (.reg .result), .out .register (.reg .result), .out .print (.lit .none)]
+
+/-- prologues with literal operands, written out (the generator's `genRv` on a literal is one
+`MOVEQ`) -/
+def rangePre (v : String) (a b : Val) : List Instr :=
+  [.moveq a (.loopVar .first), .moveq b (.loopVar .last), .move (.loopVar .first) (.var v)] ++ calcCounter
+def interpPre (v : String) (n a b : Val) : List Instr :=
+  [Instr.moveq n (.loopVar .counter)] ++
+    ([.moveq a (.loopVar .first), .moveq b (.loopVar .last), .move (.loopVar .first) (.var v)] ++ calcIncr)
+def cyclePre (v : String) (n : Val) (start : Option Val) : List Instr :=
+  [Instr.moveq n (.loopVar .counter)] ++
+    ([.moveq (cycleStart start) (.loopVar .first), .move (.loopVar .first) (.var v)] ++ cycleTail)
+
+example (v : String) (a b : Val) : indexVarRange v (.lit a) (.lit b) true = rangePre v a b :=
+  indexVarRange_lit_with v a b
+example (v : String) (n a b : Val) :
+    genRv (.lit n) (.to counter) ++ indexVarRange v (.lit a) (.lit b) false = interpPre v n a b :=
+  interp_pre_eq v n a b
+example (v : String) (n : Val) (st : Option Val) :
+    genRv (.lit n) (.to counter) ++ cycleVarRange v (st.map Rv.lit) = cyclePre v n st :=
+  cycle_pre_eq v n st
+
+def loopOf (pre body : List Instr) (idx : Option String) : List Instr :=
+  unG (assembleLoop pre counterTest [] (ins body) (loopPost idx))
+
+def runOuts (code : List Instr) (fuel : Nat) : List Rat := outNums (Vm.run (Loader.load code) fuel (Vm.init [])).trace
+
+-- range, both directions, single value
+example : runOuts (loopOf (rangePre "i" (.int 5) (.int 2)) (printVar "i") (some "i")) 400 = [5, 4, 3, 2] := by decide +kernel
+example : runOuts (loopOf (rangePre "i" (.int (-1)) (.int 2)) (printVar "i") (some "i")) 400 = [-1, 0, 1, 2] := by decide +kernel
+example : runOuts (loopOf (rangePre "i" (.int 7) (.int 7)) (printVar "i") (some "i")) 400 = [7] := by decide +kernel
+-- interpolation: both ends, n = 1, n = 0
+example : runOuts (loopOf (interpPre "i" (.int 5) (.int 0) (.int 10)) (printVar "i") (some "i")) 400 =
+    [0, 5/2, 5, 15/2, 10] := by decide +kernel
+example : runOuts (loopOf (interpPre "i" (.int 1) (.int 3) (.int 10)) (printVar "i") (some "i")) 400 = [3] := by decide +kernel
+example : runOuts (loopOf (interpPre "i" (.int 0) (.int 3) (.int 10)) (printVar "i") (some "i")) 400 = [] := by decide +kernel
+-- cycle: logical units, raw units, count 0 (no pass, no fault)
+example : runOuts (loopOf (cyclePre "h" (.int 4) none) (printVar "h") (some "h")) 400 = [0, 90, 180, 270] := by decide +kernel
+example : runOuts ([Instr.moveq (.mode .raw) (.reg .unitMode)] ++
+    loopOf (cyclePre "h" (.int 4) (some (.int 100))) (printVar "h") (some "h")) 400 =
+    [100, 16484, 32868, 49252] := by decide +kernel
+example : (Vm.run (Loader.load (loopOf (cyclePre "h" (.int 0) none) (printVar "h") (some "h"))) 400 (Vm.init [])).status
+    = .halted := by decide +kernel
+example : runOuts (loopOf (cyclePre "h" (.int 0) none) (printVar "h") (some "h")) 400 = [] := by decide +kernel
+
+def exLights : List Light :=
+  [{ name := "a", group := "g", location := "x", kind := .plain },
+   { name := "b", group := "g", location := "y", kind := .plain },
+   { name := "c", group := "h", location := "y", kind := .plain }]
+
+/-- `repeat all as m begin break end` -/
+def exInner : Code :=
+  assembleLoop ([.moveq (.int 0) counter] ++ iterLights) counterTest [.pop (.var "m")] [G.brk] (loopPost none)
+/-- `repeat all as l begin <inner> print l end` -/
+def exNested : List Instr :=
+  unG (assembleLoop ([.moveq (.int 0) counter] ++ iterLights) counterTest [.pop (.var "l")]
+    (exInner ++ ins (printVar "l")) (loopPost none))
+
+example : outStrs (Vm.run (Loader.load exNested) 2000 (Vm.init exLights)).trace = ["a", "b", "c"] := by decide +kernel
+example : (Vm.run (Loader.load exNested) 2000 (Vm.init exLights)).status = .halted ∧
+  (Vm.run (Loader.load exNested) 2000 (Vm.init exLights)).eval.length = 0 ∧ (Vm.run (Loader.load exNested) 2000 (Vm.init exLights)).stack.length = 0 := by decide +kernel
+example : BrkAt [G.brk] 0 := .here
+
+/-- the body `print i` satisfies the index-variable body contract from every state -/
+theorem printVar_ok (img : Image) (v : String) : BodyOkV img (printVar v) v := by
+  intro t ht ⟨pc, hpc, hc⟩ _ hcon hsc
+  have h1 : step img t = { t.setReg .result (t.getVariable v) with pc := (pc : Int) + 1 } := by
+    rw [step_move img t pc (.var v) (.reg .result) ht hpc (hc.get 0 (by simp [printVar]))
+      (by simpa [State.put, State.setReg] using ht)]
+    simp [State.put, State.setReg, State.read, hpc]
+  have h2 : step img { t.setReg .result (t.getVariable v) with pc := (pc : Int) + 1 } =
+      { t.setReg .result (t.getVariable v) with pc := (pc : Int) + 2,
+                                                unnamed := t.unnamed ++ [t.getVariable v] } := by
+    rw [step_plain img _ (pc + 1) _ (by simpa [State.setReg] using ht) (by simp)
+      (hc.get 1 (by simp [printVar])) (by simp [printVar]) rfl
+      (by simpa [execInstr, State.setReg, printVar] using ht)]
+    simp [execInstr, State.setReg, State.read, printVar]
+    omega
+  have h3 : step img
+      { t.setReg .result (t.getVariable v) with pc := (pc : Int) + 2,
+                                                unnamed := t.unnamed ++ [t.getVariable v] } =
+      { t.setReg .result (t.getVariable v) with pc := (pc : Int) + 3,
+                                                trace := .out (t.getVariable v) :: t.trace } := by
+    rw [step_plain img _ (pc + 2) _ (by simpa [State.setReg] using ht) (by simp)
+      (hc.get 2 (by simp [printVar])) (by simp [printVar]) rfl
+      (by simpa [execInstr, State.setReg, State.emit, printVar] using ht)]
+    simp [execInstr, State.setReg, State.emit, printVar]
+    omega
+  refine ⟨{ t.setReg .result (t.getVariable v) with pc := (pc : Int) + 3,
+                                                    trace := .out (t.getVariable v) :: t.trace },
+    ⟨⟨3, ?_⟩, ?_, ?_, ?_, ?_⟩, rfl, hcon, hsc⟩
+  · rw [run_succ _ _ _ ht, h1, run_succ _ _ _ (by simpa [State.setReg] using ht), h2,
+      run_one _ _ (by simpa [State.setReg] using ht), h3]
+  · simpa [State.setReg] using ht
+  · simp [hpc, printVar]
+  · rfl
+  · intro vars h rest hst; exact ⟨rest, hst⟩
+
+/-- `repeat with i from 5 to 2 begin print i end` at address 0 -/
+def exRangeImg : Image :=
+  ⟨(([] : List Instr) ++ unG (assembleLoop (indexVarRange "i" (.lit (.int 5)) (.lit (.int 2)) true)
+      counterTest [] (ins (printVar "i")) (loopPost (some "i"))) ++ [Instr.stop]).toArray, []⟩
+
+/-- `C04_range_loop` applied: four passes, `i` = 5, 4, 3, 2 at their starts -/
+example : ∃ (ts : List State), ts.length = 4 ∧
+    ∀ k (hk : k < ts.length), ts[k].getVariable "i" = .int (5 - k) := by
+  obtain ⟨ts, s', hl, _, _, _, hvals, _⟩ := C04_range_loop exRangeImg 0 (printVar "i") "i" 5 2
+    (CodeAt.intro [] _ [Instr.stop] []) (Vm.init []) rfl rfl rfl (.inl (by simp [LoopsOnly, Vm.init]))
+    (printVar_ok exRangeImg "i")
+  refine ⟨ts, by rw [hl]; decide, fun k hk => ?_⟩
+  rw [hvals k hk]
+  simp
+
+section WhileExample
+open Sem
+
+/-- `x < 2` -/
+def exCond : Expr := .bin .lt (.var "x") (.lit (.int 2))
+/-- `x = {x + 1}` -/
+def exIncBody : Block := .cons (.assign "x" (.expr (.bin .add (.var "x") (.lit (.int 1))))) .nil
+def exIncCode : List Instr := [.push (.var "x"), .pushq (.int 1), .op .add, .pop (.var "x")]
+
+example : genBlock exIncBody = ins exIncCode := by
+  simp [exIncBody, genBlock, genStmt, genRv, genExpr, pushLit, ins, exIncCode]
+
+def exσ (i : Int) : S := { vm := { regs := initRegs, globals := [("x", .int i)] } }
+
+theorem lt_int_int (i j : Int) : Val.cmp .lt (.int i) (.int j) = some (.bool (decide (i < j))) := by
+  rw [num_lt (Num.int i) (Num.int j)]
+  congr 2
+  exact decide_eq_decide.2 Rat.intCast_lt_intCast
+
+theorem exCond_eval (i : Int) (f : Nat) :
+    evalExpr (f + 2) exCond (exσ i) = .ok (.bool (decide (i < 2)), exσ i) := by
+  simp [evalExpr, exCond, exσ, S.lookup, Dict.get, binOp, lt_int_int]
+
+theorem exBody_exec (i : Int) (f : Nat) :
+    execBlock (f + 5) exIncBody (exσ i) = (.normal, exσ (i + 1)) := by
+  simp [execBlock, execStmt, evalRv, evalExpr, exIncBody, exσ, S.lookup, S.assign, Dict.get,
+    Dict.put, binOp, add_int_int]
+
+theorem evalRv_expr (f : Nat) (e : Expr) (s : S) : evalRv (f + 1) (.expr e) s = evalExpr f e s := by
+  simp only [evalRv]
+
+/-- the source-level loop `repeat while {x < 2} x = {x + 1}` from `x = 0`: two passes -/
+theorem exWhile_passes : whilePasses 12 (.expr exCond) exIncBody (exσ 0) = some (2, exσ 2) := by
+  have h0 : whilePasses 10 (.expr exCond) exIncBody (exσ 2) = some (0, exσ 2) := by
+    rw [whilePasses, evalRv_expr, exCond_eval 2 6]; simp [Val.truthy]
+  have h1 : whilePasses 11 (.expr exCond) exIncBody (exσ 1) = some (1, exσ 2) := by
+    rw [whilePasses, evalRv_expr, exCond_eval 1 7]
+    simp only [show (1 : Int) < 2 by decide, decide_true, Val.truthy, if_true]
+    rw [exBody_exec 1 5]; simp only [show (1 : Int) + 1 = 2 by decide, h0]; rfl
+  rw [whilePasses, evalRv_expr, exCond_eval 0 8]
+  simp only [show (0 : Int) < 2 by decide, decide_true, Val.truthy, if_true]
+  rw [exBody_exec 0 6]; simp only [show (0 : Int) + 1 = 1 by decide, h1]; rfl
+
+/-- at top level (only loop frames on the stack): same globals, constants and — `result`
+apart — registers -/
+def TopAgree (σ : S) (s : State) : Prop :=
+  ScopeAgree σ s ∧ (∀ r, r ≠ .result → σ.vm.regs r = s.regs r) ∧ LoopsOnly s.stack
+
+theorem TopAgree.relOk : RelOk TopAgree where
+  env := fun σ s h => ⟨fun n => h.1.lookup n, h.2.1⟩
+  ctl := by
+    intro σ s s' ⟨⟨hg, hc, hl⟩, hr, hlo⟩ hctl
+    refine ⟨⟨by rw [hg, hctl.globals], by rw [hc, hctl.constants], ?_⟩,
+      fun r hr' => by rw [hctl.regs r hr']; exact hr r hr', ?_⟩
+    · rw [hl]
+      rcases hctl.stack with e | ⟨vars, hh, e⟩ | ⟨vars, hh, e⟩
+      · rw [e]
+      · rw [e, activation_cons_loop]
+      · rw [e, activation_cons_loop]
+    · rcases hctl.stack with e | ⟨vars, hh, e⟩ | ⟨vars, hh, e⟩
+      · rw [e]; exact hlo
+      · rw [e]; exact loopsOnly_cons_loop hlo
+      · rw [e] at hlo; exact hlo.cons.2
+
+theorem evalExpr_var_ok (f : Nat) (n : String) (σ : S) (hne : σ.lookup n = .none → False) :
+    evalExpr (f + 1) (.var n) σ = .ok (σ.lookup n, σ) := by
+  simp only [evalExpr]
+
+theorem evalExpr_var_none (f : Nat) (n : String) (σ : S) (h : σ.lookup n = .none) :
+    evalExpr (f + 1) (.var n) σ = .error (.fault "undefined variable in expression") := by
+  simp only [evalExpr, h]
+
+/-- the code of `x = {x + 1}` simulates its source, whatever the image around it -/
+theorem exInc_sim (img : Image) : BodySim TopAgree img exIncCode exIncBody := by
+  intro f σ σ' t hrel ht ⟨pc, hpc, hc⟩ _ hex
+  obtain ⟨hsa, hregs, hlo⟩ := hrel
+  have hlk : σ.lookup "x" = t.getVariable "x" := hsa.lookup "x"
+  -- the source side: the value assigned
+  obtain ⟨r, hne, hadd, rfl⟩ : ∃ r, (σ.lookup "x" = .none → False) ∧
+      Val.add (σ.lookup "x") (.int 1) = some r ∧ σ' = σ.assign "x" r := by
+    cases f with
+    | zero => simp [execBlock] at hex
+    | succ f =>
+    simp only [exIncBody, execBlock] at hex
+    cases f with
+    | zero => simp [execStmt] at hex
+    | succ f =>
+    simp only [execStmt] at hex
+    cases f with
+    | zero => simp [evalRv] at hex
+    | succ f =>
+    simp only [evalRv] at hex
+    cases f with
+    | zero => simp [evalExpr] at hex
+    | succ f =>
+    cases f with
+    | zero => simp [evalExpr] at hex
+    | succ f =>
+    rw [evalExpr] at hex
+    by_cases hn : σ.lookup "x" = .none
+    · rw [evalExpr_var_none f "x" σ hn] at hex; simp at hex
+    · rw [evalExpr_var_ok f "x" σ hn] at hex
+      simp only [evalExpr, binOp] at hex
+      cases hadd : Val.add (σ.lookup "x") (.int 1) with
+      | none => simp [hadd] at hex
+      | some r =>
+        simp only [hadd, execBlock, Prod.mk.injEq, true_and] at hex
+        exact ⟨r, hn, rfl, hex.symm⟩
+  have hrun := run_group_var img _ _ .add "x" t pc _ _ r ht hpc hc
+    (pfStep_push_var t t.eval "x" _ hlk.symm hne) (pfStep_pushq _ _ _)
+    (by show Val.add _ _ = _; exact hadd)
+  have hput := C03_toplevel_assign t "x" r hlo
+  refine ⟨_, ⟨⟨4, hrun⟩, by simpa [putVariable_status] using ht, by simp [hpc, exIncCode], ?_, ?_⟩, ?_⟩
+  · simp only []; rw [putVariable_eval]
+  · intro vars h rest hst; exact ⟨rest, by simp only []; rw [hput]; exact hst⟩
+  · have := C03_assign_agrees_toplevel σ t "x" r hlo hsa
+    refine ⟨⟨this.1, this.2.1, this.2.2⟩, ?_, ?_⟩
+    · intro q hq
+      show (σ.assign "x" r).vm.regs q = (t.putVariable "x" r).regs q
+      rw [hput]
+      simp only [S.assign]
+      split
+      · split
+        · exact hregs q hq
+        · split <;> exact hregs q hq
+      · exact hregs q hq
+    · show LoopsOnly (t.putVariable "x" r).stack
+      rw [hput]; exact hlo
+
+
+/-- `repeat while {x < 2} x = {x + 1}` placed at address 0 -/
+def exWhileImg : Image :=
+  ⟨(([] : List Instr) ++ unG (assembleLoop [] (genRv (.expr exCond) (.to result)) [] (ins exIncCode) []) ++
+    [Instr.stop]).toArray, []⟩
+
+/-- `C04_while_loop` applied: the source loop makes two passes, so does the VM, and the final VM
+state agrees with the final source state (`x = 2`) -/
+example : ∃ (ts : List State) (xf : Val) (k : Nat),
+    ts.length = 2 ∧ xf.truthy = false ∧ TopAgree (exσ 2) (run exWhileImg k (exσ 0).vm) ∧
+    (run exWhileImg k (exσ 0).vm).globals = [("x", .int 2)] := by
+  have hpure : PureCond exCond := .bin _ _ _ (.var _) (.lit _ rfl)
+  obtain ⟨_, ts, s_top, xf, k, _, hl, hxf, hrun, hrel, _, _⟩ :=
+    C04_while_loop exWhileImg 0 exCond exIncCode exIncBody hpure (CodeAt.intro [] _ [Instr.stop] [])
+      TopAgree TopAgree.relOk (exInc_sim exWhileImg) 12 (exσ 0) (exσ 2) 2 (exσ 0).vm
+      ⟨⟨rfl, rfl, rfl⟩, fun _ _ => rfl, by simp [LoopsOnly, exσ]⟩ rfl rfl exWhile_passes
+  refine ⟨ts, xf, k, hl, hxf, by rw [hrun]; exact hrel, ?_⟩
+  rw [hrun]
+  exact hrel.1.1.symm
+
+
+end WhileExample
+
+end Examples
 
 end Bardolph
